@@ -132,9 +132,10 @@ class SYS(Prop):
             "30000 with d / 20000 / 5 with two-element e and a references, timestamps 0..6 with ties); 1..16 client messages: "
             "46% EVENT (re-offers are frequent: the pool is small), 32% REQ (sub s1/s2/'', 1..3 filters over "
             "ids/authors/kinds/#e#p#t#X/since/until, limit absent or 1..4), 7% COUNT, 10% CLOSE, 5% AUTH.  One message at a "
-            "time; each is followed by a COUNT sentinel with a unique id whose merged reply closes the window; before a REQ the "
-            "database is asked the same filters directly (the SQLite child's answer, taken as given, checked against the "
-            "relational model); after an EVENT the harness waits for the background inserter (its log line per batch, the "
+            "time; each is followed by a COUNT sentinel with a unique id whose merged reply closes the window; the SQLite child's "
+            "own answer to a REQ is recorded by a pass-through tap between that child and the merge session (taken as given, "
+            "checked against the relational model; a second identical query does not predict it: the SQL text follows the "
+            "iteration order of the filter's tag map and SQLite breaks created_at ties at a limit differently); after an EVENT the harness waits for the background inserter (its log line per batch, the "
             "two-entry LRU predicted) and lists the cache; a session ends with a REQ/EVENT pair that flushes the router "
             "child's FIFO queue (the harness reads until every live copy of that event has come: one per open subscription it "
             "matches, the session's own subscriptions included; the number only tells the harness how long to read, what was "
@@ -150,7 +151,9 @@ class SYS(Prop):
         "the single-connection router child of System.v is a specialisation written by hand from Router.v's pieces "
         "(reply_of, visit_loop, reorder); no refinement proof against the multi-connection transition system",
         "SQLite, mattn/go-sqlite3, database/sql, goqu: as C06/C16 (relational model validated by correspondence); the SQLite "
-        "child's answer to a REQ is observed by a second identical query on the quiet database",
+        "child's answer to a REQ is observed by a pass-through tap (harness/cmd/sys/sys.go sysTap: one goroutine, unbuffered, "
+        "order preserving) between that child and the merge session; apart from this extra hop the composition is the one of "
+        "cmd/mocrelay/main.go",
         "quiescence protocol of harness/cmd/sys/sys.go: COUNT sentinel per message, inserter log counting with a mirrored "
         "two-entry LRU, a marker event that flushes the router child's queue at the end of a session (the harness reads "
         "until all its live copies have arrived, with a 3 s fallback)",
